@@ -19,16 +19,16 @@ TEXT = {
             "The backend-initiated request server and GPU proxy are covered where their units are registered."),
     "C07": ("Every gated frontend method and backend arm: gate bit clear in the relevant acknowledged word implies error, wire unchanged, handler untouched; acknowledged words change only in the SET_* operations; REPLY_ACK is always offered.",
             "Gate table is written from the specification's bit numbers (literals), flag constants are checked against it."),
-    "C09": ("Descriptor ownership-transfer sites (into_raw_fd/from_raw_fd, take_single_file, handle_vring_fd_request) carry a ledger proof with OwnedFd::drop stubbed; arms hand the received descriptors to the handler exactly as received or drop them.",
-            "Rust's affine ownership (A-AFFINE) covers the rest; descriptors beyond 32 are closed inside vmm-sys-util (dependency)."),
+    "C09": ("recv_into_iovec wraps every descriptor the kernel installed in exactly one File and returns an error only when none was installed (Verus, every count up to the 32-entry buffer); recv_into_iovec_all keeps the files of the first chunk and drops the rest (Verus); ownership-transfer sites (into_raw_fd/from_raw_fd in set_backend_req_fd, set_gpu_socket, set_vring_kick/call/err, take_single_file, handle_vring_fd_request) carry a ledger proof with OwnedFd::drop stubbed (Kani); arms hand the received descriptors to the handler exactly as received or drop them (Verus); scan: every into_raw_fd is re-wrapped in the same expression, the from_raw_fd sites are exactly the proved ones, no forget-like construct exists.",
+            "Rust's affine ownership (A-AFFINE) covers everything between the listed sites; descriptors beyond 32 are closed inside vmm-sys-util (dependency); the worker's own exit-event consumer is intentionally handed to epoll for its lifetime (not a received descriptor)."),
     "C10": ("Lock-discipline lemma: every frontend method takes the lock at most once and performs its whole request/reply exchange through that one guard (Tx then Rx with nothing in between in the ghost event log).",
             "Mutual exclusion of std::sync::Mutex is assumed (A-LOCK); this is a proof of the lemma the property reduces to, not an exploration of schedules."),
     "C20": ("One complete Kani proof per validator over all bit patterns against a reference predicate written from the property text, plus the same real bodies verified in Verus.",
             "uuid::Uuid::is_nil/is_max run on the real dependency code under Kani."),
 }
 TEXT.update({
-    "C08": ("get_sub_iovs_offset, Endpoint::send_iovec_all and Endpoint::recv_into_iovec_all are verified in Verus for EVERY iovec list, every length and every chunking the socket primitive may choose (loop invariants, no bound): the wire carries exactly a prefix of hdr|body|payload, each byte once and in order, the descriptors go with the first byte only; the k-th stream byte is stored at the k-th address of the caller's buffers and the descriptors returned are those of the first chunk. Header/body/payload receivers classify every short read (Kani, complete: clean disconnect only at a boundary, PartialMessage inside, never a value from a short read); recv_data is independent of segmentation (Kani, bounded length); send_message* hand exactly hdr|body|payload and the caller's descriptors to send_iovec_all once (Kani).",
-            "One sendmsg/recvmsg (send_iovec / recv_into_iovec) is the assumed boundary (A-OS); the iterator/concat expressions of the two loops are replaced by environment functions (R19) whose meaning is cross-checked on the un-rewritten code by the bounded Kani chunking harnesses (thorough tier); 'without blocking forever' is liveness and is not decided (the loops have no decreases clause: a socket that reports retry forever never returns)."),
+    "C08": ("get_sub_iovs_offset, Endpoint::send_iovec_all and Endpoint::recv_into_iovec_all are verified in Verus for EVERY iovec list, every length and every chunking the socket primitive may choose (loop invariants, no bound): the wire carries exactly a prefix of hdr|body|payload, each byte once and in order, the descriptors go with the first byte only; the k-th stream byte is stored at the k-th address of the caller's buffers and the descriptors returned are those of the first chunk. Header/body/payload receivers classify every short read (Kani, complete: clean disconnect only at a boundary, PartialMessage inside, never a value from a short read); recv_data, recv_into_iovec_all and send_iovec_all return a short count only at end of stream / after the socket accepted nothing, never surface a retry-class error (errno classification verified against the property's table) and terminate (measure: bytes left, then remaining retry answers; recv_data: bytes left) - Verus, unbounded; recv_data cross-checked on the real code (Kani, bounded length); send_message* hand exactly hdr|body|payload and the caller's descriptors to send_iovec_all once (Kani).",
+            "One sendmsg/recvmsg (send_iovec / recv_into_iovec) is the assumed boundary (A-OS); the iterator/concat expressions of the two loops are replaced by environment functions (R19) whose meaning is cross-checked on the un-rewritten code by the bounded Kani chunking harnesses (thorough tier); 'without blocking forever': the three loops carry a decreases clause under A-RETRY-FINITE (the socket answers retry finitely often) and with every single sendmsg/recvmsg returning (a blocking socket whose live peer never sends is outside the model)."),
     "C11": ("Registration invariant (kick descriptor registered with the ring's rank on the owning worker iff started and enabled, nothing else registered) and the transition table are proved for each control message from an ARBITRARY ring state on the real VhostUserHandler / VringState / Queue code (Kani); the worker's dispatch rule (backend entered iff read_kick reports enabled) likewise.",
             "epoll level-triggering and 'closing a descriptor removes its registration' are assumed (A-EPOLL); one ring / one worker per harness; thread interleavings are C12 (not applicable)."),
     "C13": ("vmm_va_to_gpa: first containing region, gpa_base + (va - user_base), rejected iff none contains it, no overflow under the table invariant (Verus, all tables); SET_MEM_TABLE / ADD_MEM_REG / REM_MEM_REG and the shared replace_memory helper: resulting memory view (region j = message region j backed by descriptor j at its mmap_offset), mapping table, exactly one backend notification per successful change, and on every failure path memory view and table unchanged (Verus against the documented vm-memory contracts, all region counts).",
